@@ -229,8 +229,12 @@ def main():
     ev = {'property_id': pid, 'tier': tier, 'seed': seed, 'level': level, 'coverage': cov,
           'assumptions': P.get('assumptions', []) + ['partial correctness: termination of loops/recursion is not proved (P4)'],
           'wall_s': round(wall, 2), 'violations': len(vio_lines)}
-    os.makedirs(os.path.join(HERE, 'evidence'), exist_ok=True)
-    json.dump(ev, open(os.path.join(HERE, 'evidence', pid + '.json'), 'w'), indent=1, default=str)
+    ev_dir = os.path.join(HERE, 'evidence')
+    if os.path.realpath(extract.REPO) != os.path.realpath('/repo'):
+        ev_dir = os.path.join(OUT, 'evidence-scratch')    # development runs against a scratch copy never overwrite the real evidence
+        ev['coverage']['repo_under_verification'] = extract.REPO
+    os.makedirs(ev_dir, exist_ok=True)
+    json.dump(ev, open(os.path.join(ev_dir, pid + '.json'), 'w'), indent=1, default=str)
 
     print('%s: %d/%d clauses discharged (%d instances, %d functions, %.1fs; solver %.1fs)' % (
         pid, n_discharged, n_clauses, len(obls), len(per_fn), wall, cov['solver_time_s']))
